@@ -8,12 +8,12 @@ from tlcrun import MachineryError, tla_set
 import pipeline
 
 PROPS = ["PropC05_single", "PropC05_typed", "PropC05_refuse", "PropC05_idem",
-         "PropC05_accumulate", "PropC05_new"]
+         "PropC05_accumulate", "PropC05_new", "PropC05_exact"]
 KINDS = ["entity", "activity", "agent", "generation", "usage", "communication", "start", "end",
          "invalidation", "derivation", "attribution", "association", "delegation", "influence",
          "specialization", "alternate", "mention", "membership"]
 NSETUP = 4
-CLAUSES = ["C05_single", "C05_typed", "C05_refuse", "C05_idem", "C05_accumulate", "C05_new"]
+CLAUSES = ["C05_single", "C05_typed", "C05_refuse", "C05_idem", "C05_accumulate", "C05_new", "C05_exact"]
 
 
 def cfg(follow, kinds, emit, props=(), invs=(), walk=0):
